@@ -48,18 +48,73 @@ type result struct {
 
 func main() {
 	if len(os.Args) < 2 {
-		fmt.Fprintln(os.Stderr, "usage: ty run|render ...")
+		fmt.Fprintln(os.Stderr, "usage: ty run|conc|render ...")
 		os.Exit(2)
 	}
 	switch os.Args[1] {
 	case "run":
 		run(os.Args[2:])
+	case "conc":
+		conc(os.Args[2:])
 	case "render":
 		render()
 	default:
-		fmt.Fprintln(os.Stderr, "usage: ty run|render ...")
+		fmt.Fprintln(os.Stderr, "usage: ty run|conc|render ...")
 		os.Exit(2)
 	}
+}
+
+// conc: every (single-chain) vector is compiled afresh several times and its lexemes are validated from many
+// goroutines released together (first use of the compiled type); meant to be run in a binary built with -race.
+func conc(args []string) {
+	fs := flag.NewFlagSet("conc", flag.ExitOnError)
+	out := fs.String("out", "conc.ndjson", "observations (ndjson)")
+	base := fs.Int("base", 1000000, "first observation id")
+	rounds := fs.Int("rounds", 6, "fresh compilations per vector")
+	procs := fs.Int("procs", 16, "goroutines per compilation")
+	fs.Parse(args)
+	fh, err := os.Create(*out)
+	if err != nil {
+		fmt.Fprintln(os.Stderr, err)
+		os.Exit(2)
+	}
+	w := bufio.NewWriter(fh)
+	enc := json.NewEncoder(w)
+	id := *base
+	for _, f := range fs.Args() {
+		in, err := os.Open(f)
+		if err != nil {
+			fmt.Fprintln(os.Stderr, err)
+			os.Exit(2)
+		}
+		sc := bufio.NewScanner(in)
+		sc.Buffer(make([]byte, 1<<20), 1<<28)
+		line := 0
+		for sc.Scan() {
+			line++
+			if len(sc.Bytes()) == 0 {
+				continue
+			}
+			var v vector
+			if err := json.Unmarshal(sc.Bytes(), &v); err != nil {
+				fmt.Fprintf(os.Stderr, "%s:%d: %v\n", f, line, err)
+				os.Exit(2)
+			}
+			id++
+			r := result{ID: id, File: f, Line: line}
+			for _, m := range v.members() {
+				lex := make([]tym.Cps, len(m.Probes))
+				for k, p := range m.Probes {
+					lex[k] = p.V
+				}
+				r.Grp = append(r.Grp, tym.ObserveConcurrent(m.Chain, lex, *rounds, *procs, true))
+			}
+			enc.Encode(r)
+		}
+		in.Close()
+	}
+	w.Flush()
+	fh.Close()
 }
 
 func render() {
